@@ -107,6 +107,10 @@ type c17UnfoldOp struct {
 	evs  []model.Event
 }
 
+// (operations whose name ends in c17TwiceSuffix call SetTarget twice before the document: a target that never received a
+// document is replaced)
+const c17TwiceSuffix = " (SetTarget twice)"
+
 func c17UnfoldOps() []c17UnfoldOp {
 	obj := []model.Event{model.ObjStart(-1, 0), model.Key("a"), model.Str("s"), model.Key("b"), model.ArrStart(2, 0), model.SInt(model.KInt8, 1), model.SInt(model.KInt64, 2), model.ArrEnd(),
 		model.Key("m"), model.ObjStart(1, 0), model.KeyRef("k"), model.StrRef("v"), model.ObjEnd(), model.Key("p"), model.ObjStart(-1, 0), model.Key("x"), model.SInt(model.KInt8, 4), model.ObjEnd(),
@@ -375,6 +379,11 @@ func c17Families(tier string) []engine.Family {
 		}})
 	// unfolder
 	uops := c17UnfoldOps()
+	for _, i := range []int{0, 1, 3, 9} {
+		o := uops[i]
+		o.name += c17TwiceSuffix
+		uops = append(uops, o)
+	}
 	add(&engine.BFSModel{Name: "gotype.Unfolder", NumOps: len(uops),
 		OpName: func(op int) string { return uops[op].name },
 		Run: func(h []int, op int) (string, string, string, string) {
@@ -385,6 +394,11 @@ func c17Families(tier string) []engine.Family {
 			var out string
 			apply := func(o c17UnfoldOp) (string, error) {
 				t := o.mk()
+				if strings.HasSuffix(o.name, c17TwiceSuffix) {
+					if err := u.SetTarget(o.mk()); err != nil {
+						return "", err
+					}
+				}
 				if err := u.SetTarget(t); err != nil {
 					return "", err
 				}
